@@ -338,6 +338,8 @@ func (g *gateFS) RollbackLastBlock(newTip *chainhash.Hash) (*headerfs.BlockStamp
 // status returns the wait reason of goroutine gid ("" if it is not waiting)
 // and whether it waits on a mutex taken by a blockManager method.
 func (s *sched) status(gid string) (string, bool) {
+	t0 := time.Now()
+	defer func() { tick(3, t0) }()
 	if s.stackBuf == nil {
 		s.stackBuf = make([]byte, 1<<18)
 	}
